@@ -154,6 +154,10 @@ class RecvWorld(World):
         self.ret = False
         self.stop_requested = False
         self.t_stop: Optional[int] = None
+        self.t_sd: Optional[int] = None  # instant shutdown began (stop / N-th taken / end of stream)
+        self.sd_cause: Optional[str] = None
+        self.t_last_finish: Optional[int] = None
+        self.bodies_fired = 0
         self.times: List[int] = []
         self.taken: List[int] = []
         self.started: List[int] = []
@@ -177,6 +181,7 @@ class RecvWorld(World):
                     fut = world.loop.create_future()
                     world.never.append(fut)
                     await fut
+                world.emit("EOS")
 
         class RecBackend(AsyncResultBackend):  # type: ignore[type-arg]
             async def set_result(self, task_id: str, result: Any) -> None:
@@ -307,15 +312,15 @@ class RecvWorld(World):
         for mi, spec in enumerate(self.sc.get("mws", [])):
             methods: Dict[str, Any] = {}
             for hook, mode in spec.get("hooks", {}).items():
-                methods[hook] = self._mk_hook(hook, evname[hook], mode, mi, hook in spec.get("fail", []))
+                methods[hook] = self._mk_hook(hook, evname[hook], mode, mi, spec.get("fail", {}).get(hook, ()))
             cls = type(f"RecMW{mi}", (TaskiqMiddleware,), methods)
             broker.add_middlewares(cls())
 
-    def _mk_hook(self, hook: str, ev: str, mode: str, mi: int, fail: bool) -> Any:
+    def _mk_hook(self, hook: str, ev: str, mode: str, mi: int, fail: Any) -> Any:
         world = self
 
         def done(message: Any) -> Any:
-            if fail:
+            if fail == "all" or world.idx_of(message.task_id) in fail:
                 raise RuntimeError(f"hook {hook} of middleware {mi} fails")
             return message if hook == "pre_execute" else None
 
@@ -374,6 +379,21 @@ class RecvWorld(World):
         )
 
     # ------------------------------------------------------------------ menu
+    def enabled(self) -> List[Any]:
+        menu = super().enabled()
+        budget = self.sc.get("max_body")
+        if budget is not None and self.bodies_fired >= budget:
+            menu = [e for e in menu if not (e[0] in ("gate", "exec") and (e[0] == "exec" or e[1][0] == "body"))]
+        return menu
+
+    def fire(self, ev: Any) -> None:
+        if (ev[0] == "gate" and ev[1][0] == "body") or ev[0] == "exec":
+            self.bodies_fired += 1
+        super().fire(ev)
+
+    def metrics(self) -> Dict[str, int]:
+        return {"max_inflight": self.max_inflight, "max_unfinished": self.max_unfinished}
+
     def extra_enabled(self) -> List[Any]:
         out: List[Any] = list(self.executor.enabled())
         if self.sc.get("stop", True) and not self.stop_requested:
@@ -403,6 +423,8 @@ class RecvWorld(World):
         if kind == "TAKEN":
             self.taken.append(ev[1])
             self._check_unfinished()
+            if self.N and len(self.taken) == self.N and self.t_sd is None:
+                self.t_sd, self.sd_cause = self.loop._vt_us, "max-tasks"
             if self.ret:
                 self.flag("C05:taken-after-return", f"message {ev[1]} taken after listen() returned")
         elif kind == "CB_B":
@@ -422,6 +444,10 @@ class RecvWorld(World):
             if ev[1] in self.cb_open:
                 self.cb_open.remove(ev[1])
             self.cb_done.append(ev[1])
+            self.t_last_finish = self.loop._vt_us
+        elif kind in ("STOP", "EOS"):
+            if self.t_sd is None:
+                self.t_sd, self.sd_cause = self.loop._vt_us, kind.lower()
         elif kind == "START":
             if ev[1] in self.started:
                 self.flag("C01:duplicate-execution", f"task function of message {ev[1]} invoked twice")
@@ -488,6 +514,7 @@ class RecvWorld(World):
             tuple(self.cb_open),
             self.stop_requested,
             self.ret,
+            self.bodies_fired if self.sc.get("max_body") is not None else None,
             self.extra_monitor_state(),
         )
 
